@@ -12,6 +12,29 @@ import FloVerif.Lemmas.Scan
 namespace C17Scan
 open Prelude Gen Model.Contour ScanLemmas
 
+/-- (B0) the scan on ANY lines of well-formed run lists (non-empty runs inside `[0, w]`, strictly separated - what the
+    rounding stage produces, see `C17Round.roundFrac_good`): the iterator model, with its concrete fuel and cell budget,
+    yields exactly the cells of the scanline specification `restCells` (cell at (x, y) = the four samples around it,
+    read off the run lists above and below, reported when mixed) -/
+theorem scan_runs_spec (w : Nat) (lines : List (List Run)) (gl : ∀ l ∈ lines, Good w 0 l) :
+    edgeCellsOfRuns w lines = restCells w 0 [] lines := by
+  obtain ⟨inv, hS, _, _⟩ := loadLine_spec w lines.length lines [] 0 0 trivial gl (Nat.le_refl _)
+  have hfuel : (lines.length + 2) * (3 * w + 3) ≤ 4 * (w + 4) * (lines.length + 4) := by
+    rw [Nat.mul_comm (4 * (w + 4))]
+    exact Nat.mul_le_mul (by omega) (by omega)
+  have hcount : (S w (fromIterator lines)).length ≤ (w + 2) * (lines.length + 2) := by
+    show (S w (loadLine 0 lines [] 0)).length ≤ _
+    rw [hS]
+    have := restCells_length_le w lines 0 []
+    refine Nat.le_trans this ?_
+    rw [Nat.mul_comm (w + 2)]
+    exact Nat.mul_le_mul (by omega) (by omega)
+  unfold edgeCellsOfRuns
+  simp only []
+  rw [cellsGo_spec hfuel _ (fromIterator lines) inv hcount]
+  show S w (loadLine 0 lines [] 0) = _
+  rw [hS]
+
 /-- (B) the scan iterator yields exactly the mixed 2×2 cells, with the correct corner bits, in scanline order — for EVERY bitmap -/
 theorem scan_spec (w : Nat) (rows : List (List Bool)) (hrows : ∀ r ∈ rows, r.length = w) :
     edgeCells w rows = mixedCells w rows := by
@@ -19,26 +42,13 @@ theorem scan_spec (w : Nat) (rows : List (List Bool)) (hrows : ∀ r ∈ rows, r
     intro l hl
     obtain ⟨r, hr, rfl⟩ := List.mem_map.1 hl
     exact roundedRuns_good r (Nat.le_of_eq (hrows r hr))
-  obtain ⟨inv, hS, _, _⟩ :=
-    loadLine_spec w rows.length (rows.map roundedRuns) [] 0 0 trivial gl (by rw [List.length_map])
-  have hfuel : (rows.length + 2) * (3 * w + 3) ≤ 4 * (w + 4) * (rows.length + 4) := by
-    rw [Nat.mul_comm (4 * (w + 4))]
-    exact Nat.mul_le_mul (by omega) (by omega)
-  have hcount : (S w (fromIterator (rows.map roundedRuns))).length ≤ (w + 2) * (rows.length + 2) := by
-    show (S w (loadLine 0 (rows.map roundedRuns) [] 0)).length ≤ _
-    rw [hS]
-    have := restCells_length_le w (rows.map roundedRuns) 0 []
-    rw [List.length_map] at this
-    refine Nat.le_trans this ?_
-    rw [Nat.mul_comm (w + 2)]
-    exact Nat.mul_le_mul (by omega) (by omega)
   unfold edgeCells
-  simp only []
-  rw [cellsGo_spec hfuel _ (fromIterator (rows.map roundedRuns)) inv hcount]
-  show S w (loadLine 0 (rows.map roundedRuns) [] 0) = _
-  rw [hS, mixedCells_eq]
+  rw [scan_runs_spec w _ gl, mixedCells_eq]
   have := restCells_eq w rows rows 0 (List.drop_zero)
   rw [show prevRow rows 0 = [] from rfl, roundedRuns_nil] at this
   rw [this, List.range_eq_range']
+
+example : edgeCellsOfRuns 3 [[(0, 1), (2, 3)]] = restCells 3 0 [] [[(0, 1), (2, 3)]] ∧
+    (edgeCellsOfRuns 3 [[(0, 1), (2, 3)]]).length = 8 := by decide
 
 end C17Scan
